@@ -265,6 +265,14 @@ func (e *Engine) builtin(name string, args []Value, ats []types.Type, g *Term, p
 	case "print", "println":
 		return nil
 	case "recover":
+		if ext := e.runningRecover; ext != nil && !ext.acc.IsFalse() {
+			// non-nil exactly when a panic was raised inside the extent; the value is an error (what nil dereferences and
+			// failed assertions panic with); called from a helper of the deferred function it returns nil (depth check)
+			if e.recoverDepth == e.depth {
+				initSynth()
+				return iteV(ext.acc, e.newError(Str("runtime error (recovered panic)"), nil), IfaceV{})
+			}
+		}
 		return IfaceV{}
 	case "ssa:wrapnilchk":
 		return args[0]
